@@ -28,7 +28,7 @@ def shards(tier, seed):
     out = []
     n = 10 if tier == "quick" else 20
     for i in range(n):
-        out.append({"kind": "random", "mode": ("sync", "noise", "pct")[i % 3], "runs": 25 if tier == "quick" else 500,
+        out.append({"kind": "random", "mode": ("sync", "noise", "pct")[i % 3], "runs": 25 if tier == "quick" else 1500,
                     "transport": ("pipe", "tcp")[i % 2]})
     nsw = 5 if tier == "quick" else 12
     for i in range(nsw):
